@@ -1,7 +1,7 @@
 (* positioning requests (C13: 1305..1319, C12: 1200..). *)
 From Coq Require Import List ZArith QArith Bool.
 From PV Require Import lib.Sx lib.Str lib.Result.
-From PV Require Import model.Geometry model.Positioning spec.SpecGeom spec.SpecPos extract.OrCommon extract.OrGeom.
+From PV Require Import model.Geometry model.Positioning model.DfxpTree spec.SpecGeom spec.SpecPos extract.OrCommon extract.OrGeom.
 Import ListNotations.
 Open Scope Z_scope.
 
@@ -98,9 +98,38 @@ Definition req_c12 (code : Z) (arg : sx) : sx :=
   | _, _ => bad
   end.
 
+(* ---- C12: the tree model of the DFXP round trip (1210) --------------------------------------------------------- *)
+Definition sx_dnode (x : sx) : option dnode :=
+  match x with
+  | SL [SI k; st; sy; l; SI w] =>
+      match sx_bool st, sx_bool sy, sx_opt sx_layout l with
+      | Some st, Some sy, Some l => Some (mkD k st sy l w) | _, _, _ => None end
+  | _ => None end.
+Definition sx_dcap (x : sx) : option dcap :=
+  match x with
+  | SL [l; ns] => match sx_opt sx_layout l, sx_listof sx_dnode ns with
+                  | Some l, Some ns => Some (mkDcap l ns) | _, _ => None end
+  | _ => None end.
+Definition sx_dlang (x : sx) : option dlang :=
+  match x with
+  | SL [l; cs] => match sx_opt sx_layout l, sx_listof sx_dcap cs with
+                  | Some l, Some cs => Some (mkDlang l cs) | _, _ => None end
+  | _ => None end.
+Definition of_rcap (c : rcap) : sx :=
+  SL [of_layout (rc_layout c); of_list (fun wl => SL [SI (fst wl); of_layout (snd wl)]) (rc_words c)].
+Definition of_rlang (l : rlang) : sx := SL [of_layout (rl_layout l); of_list of_rcap (rl_caps l)].
+
+Definition req_tree (code : Z) (arg : sx) : sx :=
+  match code with
+  | 1210 => match sx_listof sx_dlang arg with
+            | Some s => of_result (of_list of_rlang) (dfxp_roundtrip s) | None => bad end
+  | _ => bad
+  end.
+
 Definition dispatch (code : Z) (arg : sx) : option sx :=
   match code with
   | 1305 | 1306 | 1307 | 1308 | 1309 | 1310 | 1311 | 1312 => Some (req_pos code arg)
   | 1200 | 1201 | 1202 | 1203 => Some (req_c12 code arg)
+  | 1210 => Some (req_tree code arg)
   | _ => None
   end.
